@@ -190,9 +190,10 @@ def invRun (rows : List (Option Nat × Option Nat × Option Nat × Option Nat ×
     | .error _ => false
   "inv=" ++ boolStr (checkInv parent op1 op2) ++ " links=" ++ boolStr li
 
-/-- which repairs the working tree already has (probed by the check with the witnesses): "cur", "sf", "mf", "sf+mf" -/
+/-- which repairs the working tree already has (probed by the check with the witnesses): "cur" or a "+"-joined subset of "sf", "mf", "bc" -/
 def modeFixed (m : String) : Bool := (m.splitOn "+").contains "sf"
 def memberFixed (m : String) : Bool := (m.splitOn "+").contains "mf"
+def boundsFixed (m : String) : Bool := (m.splitOn "+").contains "bc"
 
 def step (line : String) : String :=
   match fields line with
@@ -218,21 +219,21 @@ def step (line : String) : String :=
   | ["refs", _, f, h, m] =>
     match fromHex f, fromHex h with
     | some f, some t =>
-      match importDump f t (modeFixed m) (memberFixed m) with
+      match importDump f t (modeFixed m) (memberFixed m) (boundsFixed m) with
       | .ok im => refsOut im
       | .error e => errStr e
     | _, _ => "bad-op"
   | ["dump", _, f, h, m] =>
     match fromHex f, fromHex h with
     | some f, some t =>
-      match importDump f t (modeFixed m) (memberFixed m) with
+      match importDump f t (modeFixed m) (memberFixed m) (boundsFixed m) with
       | .ok im => dumpOut im
       | .error e => errStr e
     | _, _ => "bad-op"
   | ["events", _, f, h, m] =>      -- model-only: the setter calls and the declaration-map events of the import, with the theorem hypotheses
     match fromHex f, fromHex h with
     | some f, some t =>
-      match importDump f t (modeFixed m) (memberFixed m) with
+      match importDump f t (modeFixed m) (memberFixed m) (boundsFixed m) with
       | .ok im =>
         let evs := im.events
         let nref := (evs.filter fun e => match e with | .ref _ _ => true | _ => false).length
